@@ -50,6 +50,16 @@ def regenerate_dict():
     return out.strip()
 
 
+def regenerate_tags():
+    ok, log = common.go_build(["tagsgen"])
+    if not ok:
+        raise RuntimeError(log[-3000:])
+    rc, out = sh([os.path.join(HARNESS, "bin", "tagsgen"), os.path.join(COQ, "Config/TagsGen.v")], timeout=300)
+    if rc != 0:
+        raise RuntimeError("tagsgen failed:\n" + out[-3000:])
+    return out.strip()
+
+
 def regenerate_all():
-    info = {"ber": regenerate_ber(), "routes": regenerate_routes(), "dict": regenerate_dict()}
+    info = {"ber": regenerate_ber(), "routes": regenerate_routes(), "dict": regenerate_dict(), "tags": regenerate_tags()}
     return info
